@@ -107,7 +107,13 @@ func (w *World) real(tl string) string {
 
 // ModPath and Version of the module recorded as record i (an upper-case letter exercises escaping).
 func (w *World) ModPath(i int) string { return fmt.Sprintf("example.com/Mod%d", i) }
-func (w *World) Version(i int) string { return fmt.Sprintf("v1.%d.0", i) }
+// every third version has upper-case letters in its pre-release (versions are escaped on the wire, not in go.sum lines)
+func (w *World) Version(i int) string {
+	if i%3 == 2 {
+		return fmt.Sprintf("v1.%d.0-RC1", i)
+	}
+	return fmt.Sprintf("v1.%d.0", i)
+}
 
 func (w *World) recTextTag(tag string, i int) []byte {
 	p, v := w.ModPath(i), w.Version(i)
